@@ -462,6 +462,35 @@ func runC08(c *checker, r *rng.R) {
 		}
 		c08Case(c, q, false, "token mutation", "")
 	}
+	// annotations in every position with degenerate values (the generator reads go.* annotations of
+	// definitions, fields, enum items, functions, parameters and container types)
+	{
+		keys := []string{"go.name", "go.label", "go.tag", "go.type", "go.nolog", "go.redact", "py.x"}
+		vals := []string{"", ` = ""`, ` = "_"`, ` = "__"`, ` = "a"`, ` = "A_b"`, ` = "1"`, ` = "É"`, ` = " "`, ` = "A B"`, ` = "\""`, ` = "json:\"x\""`, ` = "slice"`, ` = "map"`, ` = "type"`, ` = "S"`}
+		shapes := []string{
+			"struct S {} %s", "struct S { 1: optional i32 x %s }", "struct S { 1: required string x %s; 2: optional i32 y %s }",
+			"enum E { A %s }", "enum E { A %s, B %s }", "enum E { A } %s", "union U { 1: i32 x %s }", "union U { 1: i32 x } %s",
+			"exception X {} %s", "exception X { 1: optional string m %s }", "typedef i32 T %s", "typedef list<i32> %s T", "typedef set<string> %s T",
+			"typedef map<string, i32> %s T", "typedef set<S> %s T\nstruct S { 1: optional list<S> %s l }", "service V {} %s", "service V { void f() %s }",
+			"service V { void f(1: i32 a %s) }", "service V { i32 f() throws (1: X e %s) }\nexception X {}", "service V { oneway void f(1: list<i32> %s a) %s }",
+			"struct S { 1: optional map<i32, list<string> %s> %s m %s }", "struct _ {} %s", "struct S { 1: optional i32 _ %s }"}
+		for _, sh := range shapes {
+			holes := strings.Count(sh, "%s")
+			for _, k := range keys {
+				for _, v := range vals {
+					args := make([]interface{}, holes)
+					for h := range args {
+						args[h] = "(" + k + v + ")"
+						if h > 0 && r.Chance(1, 3) {
+							args[h] = "(" + keys[r.Intn(len(keys))] + vals[r.Intn(len(vals))] + ")"
+						}
+					}
+					text := fmt.Sprintf(strings.ReplaceAll(sh, "\\n", "\n"), args...) + "\n"
+					c08Case(c, &Prog{Strict: false, Files: []*File{{Path: "a.thrift", Raw: []byte(text)}}}, false, "annotation", "")
+				}
+			}
+		}
+	}
 	// arbitrary bytes
 	for i := 0; i < nBytes; i++ {
 		var raw []byte
@@ -483,5 +512,5 @@ func runC08(c *checker, r *rng.R) {
 		c08Case(c, p, false, "arbitrary bytes", "")
 	}
 	c.flush()
-	c.rep.Rule = "file sets run through compile.Compile + gen.Generate in a child process (20 s timeout, GOMEMLIMIT 1 GiB, ulimit -v 6 GiB, 64 MiB goroutine stack): structurally generated programs with every kind of reference cycle of length 1..k (typedef→typedef also through containers, typedef→struct→typedef, struct→struct, const→const with anonymous / named types and through literals, const↔struct default, service extends, include loop / self include, the include loop carrying a service / constant / typedef cycle across files, typedef cycles with a literal of any kind cast to them, mutually nested struct defaults with a mistyped literal), deep acyclic chains (400 levels), invalid references and includes; random valid programs; token-level mutations of valid IDL; arbitrary bytes. Outcome ∈ {ok, err, diverges (compile crash/timeout), gen-diverges} compared with the model's verdict (the AST of text inputs comes from the real parser); oracle: no crash/timeout. Non-trivial = structured, or accepted by the parser; distinct by input. The shapes of the repaired findings D4 D5 D6 D40 (constant cycles, service cycles, self-referential defaults) are part of the cycle stream and must end in an error."
+	c.rep.Rule = "file sets run through compile.Compile + gen.Generate in a child process (20 s timeout, GOMEMLIMIT 1 GiB, ulimit -v 6 GiB, 64 MiB goroutine stack): structurally generated programs with every kind of reference cycle of length 1..k (typedef→typedef also through containers, typedef→struct→typedef, struct→struct, const→const with anonymous / named types and through literals, const↔struct default, service extends, include loop / self include, the include loop carrying a service / constant / typedef cycle across files, typedef cycles with a literal of any kind cast to them, mutually nested struct defaults with a mistyped literal), deep acyclic chains (400 levels), invalid references and includes; random valid programs; every go.* annotation with degenerate values (none, empty, underscores, lower case, digits, spaces, quotes, Go keywords) on every annotatable position; token-level mutations of valid IDL; arbitrary bytes. Outcome ∈ {ok, err, diverges (compile crash/timeout), gen-diverges} compared with the model's verdict (the AST of text inputs comes from the real parser); oracle: no crash/timeout. Non-trivial = structured, or accepted by the parser; distinct by input. The shapes of the repaired findings D4 D5 D6 D40 (constant cycles, service cycles, self-referential defaults) are part of the cycle stream and must end in an error."
 }
